@@ -44,7 +44,10 @@ type StreamScenario struct {
 	Ops  []StreamOp `json:"ops"`
 	// Sink: the peer consumes what the consumer writes ("" = from the start, "never", or a trigger list).
 	Sink string `json:"sink,omitempty"`
-	// PeerEnd: "" (stays), "close" / "abort" after everything went quiet.
+	// PeerEnd: "" (stays), "close" / "abort" after everything went quiet;
+	// "close-early": an orderly close as soon as the peer has written everything -
+	// what it wrote is still the consumer's to read, whatever happens to the
+	// consumer's own writes meanwhile (a write to a peer that is gone fails).
 	PeerEnd string `json:"peer_end,omitempty"`
 	// UpgradeDeadlineUs > 0 (client side): the Upgrade exchange runs under a
 	// context with this deadline; the operations afterwards use their own contexts.
@@ -352,6 +355,11 @@ func (s *StreamScenario) peerTask(ep *sim.Endpoint, eatFirst bool) {
 		sim.Rec("peer.write", sf(`{"end":%d,"err":%q}`, len(all), errStr(err)))
 	}
 	sim.Rec("peer.done", "")
+	if s.PeerEnd == "close-early" {
+		ep.Close()
+		sim.Rec("peer.closed", "")
+		return
+	}
 	sim.Await(sim.Cond{Kind: sim.CondQuiescent})
 	switch s.PeerEnd {
 	case "close":
@@ -579,6 +587,9 @@ func (s *StreamScenario) Check(k *sim.Kernel) []sim.Violation {
 			sawEOF = true
 		}
 		if o.res.Err != "canceled" && o.res.Err != "deadline" && o.res.Err != "timeout" {
+			if got := len(segs[0].data); s.PeerEnd == "close-early" && !s.apiOps() && !lossy && peerDone && o.res.Err != "eof" && op.Ctx.Mode == "" && got < len(S) {
+				out = append(out, vio("stream", "read-failed-with-bytes-pending", "op %d (%s, live context) failed with %q although the peer had written %d bytes and closed in an orderly way and only %d of them had been delivered: a failed write of the consumer must not cost it what it has received", i, op.Kind, o.res.Err, len(S), got))
+			}
 			break // the stream ended (EOF, reset): nothing further to judge
 		}
 		// a cancelled read may have consumed bytes: whatever the peer had written by the time it returned
@@ -1046,7 +1057,37 @@ func genC18(seed uint64, tier string) Scenario {
 			s.Ops[i].Ctx = CtxSpec{Mode: "cancel", Us: g.IntN(1500)}
 		}
 	}
+	closeEarlyVariant(seed, s)
 	return s
+}
+
+// closeEarlyVariant: the peer writes everything at once and closes; the consumer
+// first writes into the closed connection, then reads (a generator of its own:
+// the scenarios of the other seeds stay what they were).
+func closeEarlyVariant(seed uint64, s *StreamScenario) {
+	g := NewGen(seed, 0xC18E)
+	if g.IntN(10) != 0 || s.Duplex || s.UpgradeDeadlineUs > 0 {
+		return
+	}
+	var reads []StreamOp
+	for _, op := range s.Ops {
+		if op.Kind == "write" || op.Ctx.Mode != "" {
+			continue
+		}
+		op.PauseUs = 0
+		reads = append(reads, op)
+	}
+	if len(reads) == 0 {
+		return
+	}
+	s.PeerEnd = "close-early"
+	s.Sink = ""
+	s.Peer = []PeerAct{{Op: "write", N: len(s.peerBytes())}}
+	w := StreamOp{Kind: "write", Data: []byte(g.BigString(1 + g.IntN(200))), PauseUs: 20000 + g.IntN(20000)}
+	s.Ops = append([]StreamOp{w}, reads...)
+	if g.Pct(50) {
+		s.Ops = append(s.Ops[:2], append([]StreamOp{w}, s.Ops[2:]...)...)
+	}
 }
 
 // genC17: the stream family, and (one run in twelve) the serving-context family:
